@@ -47,6 +47,9 @@ POOL = [
     ("bbad", "B[255,254,65]", "b"),
     ("null", "null", "n"),
     ("st13", "(1 to 3)", "st"),
+    # streams whose cursor has been advanced (a builtin handed a fresh value never sees one)
+    ("stw", "(stream([10,20,30,40])[2:])", "st"),
+    ("stadv", "((1 to 5)[3:])", "st"),
     ("lam", "(\\xx -> xx < 2)", "fn"),
     ("bif", "max", "fn"),
 ]
